@@ -1,6 +1,10 @@
 """Whole-package behaviour-preserving twins, built in memory (Repo overlay) for the thorough tier:
   A  every source file round-tripped through ast.unparse (layout, comments, quoting, redundant parentheses gone)
   B  A + every function-local variable renamed x -> x_v (parameters, attributes, globals, names captured by nested scopes untouched)
+  C  A + inverse spellings (torch.F(x, ..) -> x.F(..), max(1, n) -> max(n, 1))
+  D  A + every if/else with its branches swapped under the negated condition
+  E  A + every `return EXPR` through a temporary
+  F  A + De Morgan on every compound statement condition
 Neither changes what the program computes; a rule whose verdict moves under them depends on spelling, not on behaviour."""
 from __future__ import annotations
 
@@ -92,6 +96,90 @@ class Rename(ast.NodeTransformer):
 
 
 
+class InverseSpelling(ast.NodeTransformer):
+    """C: the spellings the canonical form rewrites, applied the other way round wherever they are identities:
+    torch.F(x, ..) -> x.F(..) for reductions / element-wise maths, keyword arguments for the positional arguments of package methods
+    is not attempted here (signatures are needed); max(1, n) -> max(n, 1); x.unsqueeze(k) stays; a + b stays."""
+    FUNCS = {"sum", "mean", "abs", "sqrt", "sin", "cos", "exp", "log", "prod", "square", "clamp", "flip", "norm", "repeat_interleave", "all", "any"}
+
+    def visit_Call(self, node):
+        self.generic_visit(node)
+        f = node.func
+        if isinstance(f, ast.Attribute) and isinstance(f.value, ast.Name) and f.value.id == "torch" and f.attr in self.FUNCS and node.args \
+                and not isinstance(node.args[0], (ast.Starred, ast.List, ast.Tuple, ast.Constant)) and not any(k.arg in ("input", "out") for k in node.keywords):
+            recv = node.args[0]
+            if isinstance(recv, (ast.BinOp, ast.UnaryOp, ast.Compare, ast.BoolOp, ast.IfExp, ast.Lambda)):
+                return node
+            return ast.copy_location(ast.Call(func=ast.Attribute(value=recv, attr=f.attr, ctx=ast.Load()), args=node.args[1:], keywords=node.keywords), node)
+        if isinstance(f, ast.Name) and f.id in ("max", "min") and len(node.args) == 2 and not node.keywords and isinstance(node.args[0], ast.Constant) and not isinstance(node.args[1], ast.Constant):
+            node.args = [node.args[1], node.args[0]]
+        return node
+
+
+class BranchSwap(ast.NodeTransformer):
+    """D: `if c: A else: B` -> `if not c: B else: A` (no elif chains are broken: an `elif` is an If in orelse and is swapped as a whole)"""
+
+    def visit_If(self, node):
+        self.generic_visit(node)
+        if node.orelse and not (len(node.orelse) == 1 and isinstance(node.orelse[0], ast.If)):
+            test = node.test.operand if isinstance(node.test, ast.UnaryOp) and isinstance(node.test.op, ast.Not) else ast.UnaryOp(op=ast.Not(), operand=node.test)
+            return ast.copy_location(ast.If(test=test, body=node.orelse, orelse=node.body), node)
+        return node
+
+    def visit_IfExp(self, node):
+        self.generic_visit(node)
+        return node
+
+
+class ReturnTemp(ast.NodeTransformer):
+    """E: `return EXPR` -> `_result = EXPR; return _result` (EXPR not a bare name / constant)"""
+
+    def _block(self, stmts):
+        out = []
+        for s in stmts:
+            if isinstance(s, ast.Return) and s.value is not None and not isinstance(s.value, (ast.Name, ast.Constant)):
+                a = ast.copy_location(ast.Assign(targets=[ast.Name(id="_result_v", ctx=ast.Store())], value=s.value), s)
+                r = ast.copy_location(ast.Return(value=ast.Name(id="_result_v", ctx=ast.Load())), s)
+                out += [a, r]
+            else:
+                out.append(s)
+        return out
+
+    def generic_visit(self, node):
+        super().generic_visit(node)
+        for field in ("body", "orelse", "finalbody"):
+            v = getattr(node, field, None)
+            if isinstance(v, list) and v and isinstance(v[0], ast.stmt):
+                setattr(node, field, self._block(v))
+        return node
+
+    def visit_Lambda(self, node):
+        return node
+
+
+class DeMorgan(ast.NodeTransformer):
+    """F: `if a and b` -> `if not (not a or not b)`, `if a or b` -> `if not (not a and not b)` (statement conditions only)"""
+
+    def _rw(self, t):
+        if isinstance(t, ast.BoolOp) and len(t.values) >= 2:
+            neg = [v.operand if isinstance(v, ast.UnaryOp) and isinstance(v.op, ast.Not) else ast.UnaryOp(op=ast.Not(), operand=v) for v in t.values]
+            inner = ast.BoolOp(op=ast.Or() if isinstance(t.op, ast.And) else ast.And(), values=neg)
+            return ast.copy_location(ast.UnaryOp(op=ast.Not(), operand=inner), t)
+        return t
+
+    def visit_If(self, node):
+        self.generic_visit(node)
+        node.test = self._rw(node.test)
+        return node
+
+    def visit_While(self, node):
+        self.generic_visit(node)
+        return node
+
+    def visit_Assert(self, node):
+        return node
+
+
 def overlay(root: str, variant: str) -> Dict[str, str]:
     out = {}
     pkg = os.path.join(root, "src", "torchphysics")
@@ -104,6 +192,9 @@ def overlay(root: str, variant: str) -> Dict[str, str]:
                 tree = ast.parse(fh.read())
             if variant == "B":
                 tree.body = [Rename().visit(b) if isinstance(b, (ast.FunctionDef, ast.ClassDef)) else b for b in tree.body]
+                ast.fix_missing_locations(tree)
+            elif variant in ("C", "D", "E", "F"):
+                tree = {"C": InverseSpelling, "D": BranchSwap, "E": ReturnTemp, "F": DeMorgan}[variant]().visit(tree)
                 ast.fix_missing_locations(tree)
             out[os.path.relpath(path, root)] = ast.unparse(tree) + "\n"
     return out
